@@ -35,7 +35,7 @@ ASSUMPTIONS = [
     "the constant 4 per source is deliberately generous (current item, previous item, tuple under construction, one in flight)",
     "cycle, sorted, the collection builders and lagging tee children are exempt as documented",
 ]
-PROBES = ("tee_step_created_and_dropped", "tee_of_tee_child", "awaitable_items", "tee_child_failed_and_abandoned", "lazy_sequence_source", "len>=800", "tee_lagging_child_closed", "aggregation", "multi_source", "window_tool")
+PROBES = ("tee_step_created_and_dropped", "tee_of_tee_child", "awaitable_items", "tee_child_failed_and_abandoned", "lazy_sequence_source", "len>=800", "tee_lagging_child_closed", "tee_object_closed_with_lagging_children", "aggregation", "multi_source", "window_tool")
 
 TOOLS = ("zip", "map", "filter", "filterfalse", "enumerate", "accumulate", "batched", "chain", "compress",
          "dropwhile", "takewhile", "islice", "pairwise", "starmap", "zip_longest", "merge", "tee", "groupby", "chain_from_iterable",
@@ -206,6 +206,9 @@ def gen(ch):
             sc["close_at"][total - 1] = 0
         sc["abandon_step"] = ch.chance(1, 2)
         sc["pattern"] = [ch.draw(total) for _ in range(16)]
+        # after that many steps the tee object itself is closed (all children at once, lagging ones included) while the
+        # consumer keeps its references to the tee and its children: nothing stays buffered
+        sc["handle_close_at"] = ch.draw(sc["length"]) if ch.chance(1, 4) else None
     return sc
 
 
@@ -324,6 +327,16 @@ def execute(st, ctx):
             live = [True] * len(children)
             k = 0
             while any(live):
+                if sc.get("handle_close_at") is not None and k >= sc["handle_close_at"]:
+                    if sc.get("outer"):
+                        await outer_handle.aclose()
+                    await handle.aclose()
+                    live = [False] * len(children)
+                    out.probes["tee_object_closed_with_lagging_children"] = 1
+                    res["steps"] += 1
+                    if cnt.alive > base and cnt.over is None:
+                        cnt.over = (cnt.alive, cnt.delivered, "after the tee object was closed")
+                    break
                 c = sc["pattern"][k % 16]
                 k += 1
                 if not live[c]:
@@ -435,7 +448,8 @@ def execute(st, ctx):
         elif tool == "takewhile":
             it = L.takewhile(truthy, S[0])
         elif tool == "islice":
-            it = L.islice(S[0], n, None, 1 + n % 3)
+            # (the stride may be long: what is skipped is dropped item by item, not gathered)
+            it = L.islice(S[0], n, None, (1 + n % 3) if n % 2 else n)
         elif tool == "pairwise":
             it = L.pairwise(S[0])
         elif tool == "starmap":
